@@ -640,6 +640,17 @@ func registerStubs(e *Engine) {
 	S["strings.Index"] = str2(func(in *Interp, a, b *Term) Value {
 		return in.idxToBV(in.tb.StrOp("str.indexof", SortInt, a, b, in.tb.Int(0)))
 	})
+	S["strings.Count"] = func(in *Interp, fn *ssa.Function, args []Value) (Value, bool) {
+		a, b := args[0].(*Term), args[1].(*Term)
+		if a.IsConst() && b.IsConst() {
+			return ret(in.tb.BV(64, uint64(strings.Count(a.S, b.S))))
+		}
+		if !b.IsConst() || b.S == "" {
+			panic(in.abort("strings.Count with symbolic/empty separator"))
+		}
+		// the number of non-overlapping occurrences is one less than the number of pieces Split yields
+		return ret(in.tb.BV(64, uint64(len(in.strSplit(a, b, -1).([]Value))-1)))
+	}
 	S["strings.IndexByte"] = func(in *Interp, fn *ssa.Function, args []Value) (Value, bool) {
 		return ret(in.idxToBV(in.tb.StrOp("str.indexof", SortInt, args[0].(*Term), in.byteToStr(args[1].(*Term)), in.tb.Int(0))))
 	}
